@@ -174,12 +174,14 @@ class CalSpec(Spec):
 
     def streams(self, tier, rng):
         sts = []
-        whole = tier in ("thorough", "wide")
+        wide_cfgs = getattr(self, "wide_cfgs", None) if tier == "wide" else None
+        whole_tier = tier in ("thorough", "wide")
         if tier == "wide":
             tier = "quick"
         if "jd" in self.kinds:
             reqs = []
             for cfg in CFGS:
+                whole = whole_tier and (wide_cfgs is None or cfg in wide_cfgs)
                 if whole:
                     reqs += jd_blocks(cfg, LO, HI + 1)   # the domain is closed: +40 000 000 itself included
                 else:
@@ -247,6 +249,7 @@ class CalSpec(Spec):
                 ylo, yhi = year_range(cfg)
                 if self.ylimit:
                     ylo, yhi = max(ylo, self.ylimit[0]), min(yhi, self.ylimit[1] + 1)
+                whole = whole_tier and (wide_cfgs is None or cfg in wide_cfgs)
                 if whole:
                     reqs += ym_blocks(cfg, ylo, yhi)
                 else:
